@@ -664,6 +664,11 @@ Theorem c17_redirect_contained : forall code_file loc dfp idp d raw_code_id kind
 Proof. exact redirect_contained. Qed.
 Print Assumptions c17_redirect_contained.
 
+(* the source still parses the Location the way parse_location models it (pinned text of the statements) *)
+Theorem c17_src_redirect_parse : g_redirect_parse = RpStripSlashRsplitNth1Next.
+Proof. exact redirect_parse_known. Qed.
+Print Assumptions c17_src_redirect_parse.
+
 (* non-vacuity: which pieces of a Location become the debug file / debug id ("/a/../5A1/x.sym" -> "..", declined later by
    safe_leafname; "//e/0/x" -> "e"; "..\..\w/0/x" -> the whole "..\..\w", whose leaf is "w"; "0/x" -> nothing) *)
 Example c17_nonvacuous_redirect :
